@@ -65,8 +65,11 @@ CLAIMED = {
              "symbolically on arbitrary error histories, residuals, tolerances and alpha (NaN-ness enumerated), all paths "
              "explored, and z3 proves the verdict post-conditions and the alpha / restore bookkeeping; the real "
              "newton_raphson is executed with the per-iteration solve replaced by fresh symbolic iterates for every history "
-             "up to the iteration budget; the real pipeflow is run over all verdict sequences on one net object (failure => "
-             "exception, not converged, no number in any result table).",
+             "up to the iteration budget (also with a NaN entry in the residual vector); the assumption of that proof - the "
+             "stage functions hand the driver one (new, old) pair per solver variable, aligned with tolerances and pit "
+             "columns, covering every updated unknown - is discharged on the real solve_hydraulics / solve_temperature / "
+             "solve_bidirectional executed symbolically on real nets; the real pipeflow is run over all sequences of forced "
+             "verdicts and supply cuts on one net object (failure => exception, not converged, no number in any result table).",
         technique="symbolic execution (fork-complete) of the real driver code + z3 per path; call sequences enumerated; "
                   "counterexamples replayed on the real functions with floats",
         design="4/C05"),
@@ -94,7 +97,8 @@ CLAIMED = {
              "per enumerated structure: reversed branches (same state in mirrored coordinates: residual rows and reported "
              "values equal up to the documented sign/column swap), aggregated loads, disabled elements vs. their absence, "
              "liquid pressure shift, n sections vs. n pipes in series (identity-mapped Newton systems), and for liquids at "
-             "uniform temperature the n section rows summing up to the row of the 1-section pipe.",
+             "uniform temperature the n section rows summing up to the row of the 1-section pipe and every reported cell of "
+             "the n-section pipe equal to that of the 1-section pipe at a common fixed point.",
         technique="symbolic execution of both descriptions + z3 equivalence queries (If-resolution, abs canonicalisation, "
                   "rational normal form, NRA); counterexamples replayed on the real pipeflow",
         design="4/C09"),
@@ -141,7 +145,9 @@ CLAIMED = {
              "(z3) on dict layers built from symbolic presence flags and values; for each key cluster the documented "
              "precedence, the couplings (reuse only with update, 'all' -> sequential, numba fallback), carry-through of "
              "unknown keys and non-mutation of defaults / user options are either confirmed over all paths or refuted "
-             "with concrete arguments (replayed in plain Python).",
+             "with concrete arguments (replayed in plain Python); that the resolved stage limits are the ones in force is "
+             "decided on the real hydraulics / heat_transfer / bidirectional + real Newton driver with a never-converging "
+             "solve (number of solves == resolved limit of that stage, symbolic limits).",
         technique="CrossHair symbolic execution (z3) of the real option-resolution code, per-condition verdicts",
         engine="crosshair", design="4/C14",
         note="CrossHair 0.0.110 + z3; values modelled as ints/bools; get_fluid stubbed; 'Not confirmed' is reported as "
